@@ -246,6 +246,30 @@ pub fn run(tier: Tier) -> i32 {
             judge(&rep, &c, &ber::encode_forms(&t, &mut |_| *f), &evals);
         }
     });
+    // sizes and counts beyond the small pools: diagnostic text / matched DN of 1000..100000
+    // octets, referrals with up to 300 URIs, up to 300 controls, for every response type
+    let scale: Vec<usize> = (0..=40).chain([63, 64, 65, 100, 127, 128, 129, 255, 256, 257, 300, 1000, 5000, 20000, 100000]).collect();
+    par_for((scale.len() * TYPES.len()) as u64, |i| {
+        let ty = TYPES[(i as usize) % TYPES.len()];
+        let n = scale[(i as usize) / TYPES.len()];
+        let k = i as usize;
+        // (a) long strings
+        let res = Res { rc: 32, matched: format!("ou={}", "m".repeat(n)).into_bytes(), text: "t".repeat(n).into_bytes(), referral: None };
+        let c = Case { msg: Msg { id: 7, op: mk_op(ty, res, None, None, None), controls: None }, name: None, val: None, creds: None };
+        distinct.fetch_add(1, Ordering::Relaxed);
+        judge(&rep, &c, &c.msg.encode(), &evals);
+        // (b) many URIs / many controls (counts up to 300)
+        if n <= 300 {
+            let uris: Vec<Vec<u8>> = (0..n).map(|j| format!("ldap://host{}/dc=x{}", j, j % 7).into_bytes()).collect();
+            let ctrls: Vec<Ctl> = (0..n).map(|j| Ctl { oid: format!("1.2.{}", j).into_bytes(), crit: if j % 3 == 0 { Some(j % 2 == 0) } else { None }, val: if j % 2 == 0 { Some(vec![j as u8; j % 4]) } else { None } }).collect();
+            let res = Res { rc: 10, matched: vec![], text: b"many".to_vec(), referral: if n == 0 { None } else { Some(uris) } };
+            let (name, val) = if ty == 24 { (Some(b"1.2.3".to_vec()), Some(vec![k as u8; n])) } else { (None, None) };
+            let creds = if ty == 1 { Some(vec![0xfe; n]) } else { None };
+            let c = Case { msg: Msg { id: 70000, op: mk_op(ty, res, name.clone(), val.clone(), creds.clone()), controls: Some(ctrls) }, name, val, creds };
+            distinct.fetch_add(1, Ordering::Relaxed);
+            judge(&rep, &c, &c.msg.encode(), &evals);
+        }
+    });
     // small messages: every combination of forms over <= 6 nodes
     for ty in TYPES {
         let c = mk_case(ty, 32, 0, 0, 0, 0, 1);
